@@ -12,3 +12,18 @@ META = {
     'assumptions': ['compile_error message formatting stubbed', 'O16.3 / O16.4 add the visibility predicate of name resolution (package_allowed) and the locality predicate of the orphan rule (is_local_nominal_type) as kernels; O16.5 / O16.6: load_package and discover_packages_with_layout accept a directory / project iff the declared package names agree (file system and parsing stubbed); outside: duplicate impl detection, whole-program placement of impls'],
     'trusted_base': ['mirsym MIR interpreter', 'hash container models', 'z3', 'reference DFS (oracle)'],
 }
+
+# ----------------------------------------------------------------------------- O16.8 a dependency that is not on the link line is an error on the separate-compilation path as well
+def ob_link_missing_package(r, tier, seed, **kw):
+    """the C15 O15.3 exploration of pipeline::separate::link_cores (symbolic sets of cores, dependency maps that may name a package without a core);
+    under C16 the findings whose witness has a dependency on a package that is not provided count: `missing packages are reported as errors`"""
+    from props import c15
+    c15.ob_link_gate(r, tier, seed, **kw)
+    keep = []
+    for f in r.findings:
+        w = f.witness or {}; prov = set((w.get('provided') or {}).keys())
+        if f.key == 'panic' or any(d not in prov for ds in (w.get('provided') or {}).values() for d in ds): keep.append(f)
+    r.findings = keep
+_c16_obl8 = obligations
+def obligations():
+    return _c16_obl8() + [Ob('O16.8-link-missing-package', 'link_cores rejects a set of cores in which a package depends on a package that is not provided', ob_link_missing_package, ('quick', 'thorough'), 2, dict(pkgs=['Main', 'A']))]
